@@ -21,7 +21,7 @@ RULE = ("A: packet histories at one station (distinct by hash of the event list)
         "hop limit, origin); non-trivial = at least one duplicate or forward was observed and judged.")
 ASSUMPTIONS = ["a replay outside the DPL window may legitimately be delivered/forwarded again: the model tracks the ring exactly",
                "omitted forwards (PDR limit, area-size control, SCF stub) are allowed: at-most-once is an upper bound"]
-REQUIRED_COUNTERS = ["A.cbf_overheard_judged", "A.duplicates_judged", "A.forward_copies_compared", "A.rhl01_judged", "A.own_address_judged", "B.floods",
+REQUIRED_COUNTERS = ["A.cbf_overheard_judged", "A.cbf_overheard_after_leaving_the_area", "A.duplicates_judged", "A.forward_copies_compared", "A.rhl01_judged", "A.own_address_judged", "B.floods",
                      "B.station_packet_pairs", "B.cbf_overheard_judged"]
 
 KINDS = ("tsb", "gbc_in", "gbc_out", "gac_in", "gac_out", "guc_other", "guc_me", "ls_req_other", "ls_rep_other")
@@ -76,7 +76,9 @@ def gen_a(rng):
                 sn[src] = (sn[src] + rng.choice((1, 1, 1, 2))) % 65536
             ev.append({"e": "pkt", "src": src, "kind": kind, "sn": sn[src] if src != "self" else rng.randrange(65536),
                        "rhl": rng.choice((0, 1, 2, 2, 3, 10, 255, rng.randrange(256))), "de": rng.choice(("nb_newer", "nb_older", "nb_equal", "far")),
-                       "plen": rng.choice((0, 5, 200)), "overhear": rng.random() < 0.4})
+                       "plen": rng.choice((0, 5, 200)), "overhear": rng.random() < 0.4,
+                       # the station gets a position fix that takes it out of the destination area while its copy waits in the CBF buffer
+                       "move_out": rng.random() < 0.35})
             fresh.append(len(ev) - 1)
     return {"part": "A", "alg": rng.choice((1, 2)), "dpl": dpl, "events": ev, "src_inside": False}
 
@@ -172,14 +174,21 @@ def run_a_case(c, res):
             if deferred and ev.get("overhear") and rhl >= 2:
                 # a duplicate is overheard while the copy waits in the CBF buffer: it must never be sent
                 w.clock.advance(0.0004)
+                moved = bool(ev.get("move_out"))
+                if moved:
+                    A.set_position(MY_LAT + 300000, MY_LON)       # ~3.3 km north: outside the 300 m destination circle
+                    res.count("A.cbf_overheard_after_leaving_the_area")
                 w.ether.inject("A", raw[:3] + bytes([max(1, rhl - 1)]) + raw[4:])
                 w.settle()
                 w.clock.advance(0.3)
                 w.settle()
+                if moved:
+                    A.set_position(MY_LAT, MY_LON)
                 res.count("A.cbf_overheard_judged")
                 late_tx = [pp for (_, _, s, pp) in w.ether.wire[tx0:] if s == "A"]
                 if late_tx:
-                    res.violation("C06:cbf-buffered-copy-sent-after-duplicate-overheard", f"(SO {src}, SN {sn_}) buffered, duplicate overheard 0.4 ms later, still transmitted", ctx)
+                    res.violation("C06:cbf-buffered-copy-sent-after-duplicate-overheard" + ("[station-left-the-area-meanwhile]" if moved else ""),
+                                  f"(SO {src}, SN {sn_}) buffered, duplicate overheard 0.4 ms later, still transmitted", ctx)
                 if len(A.gn_ind) - ind0 > 1:
                     res.violation(f"C06:duplicate-delivered[{kind}]", "overheard duplicate was indicated", ctx)
                 continue
